@@ -16,12 +16,13 @@
                 in between), and the value is the concatenation of the decoded run;
     * comment / PI   the body / target / content spans of a `Comment` / `PI` token; the node's value
                 (PI: data) is `normalizeLineEnds` (CR LF / CR → LF) of the body / content text, the PI's
-                name is the target text as written.
+                name is the target text as written, which is not `xml` in any letter case.
   `DInv ts done b` is the invariant of the token loop after the tokens `done` (Lemmas/SpanDescStep).
 -/
 import XotModel.Lemmas.ParseSpanTotal
 import XotModel.Lemmas.ParseSpanKeys
 import XotModel.Lemmas.ParseSpanOrder
+import XotModel.Lemmas.LineEnds
 
 namespace XotModel
 
@@ -130,7 +131,8 @@ def PiFacts (ts : List Token) (g : SpanKey → Option Span) (env : Env) (path : 
     g ⟨path, .piTarget⟩ = some target.span ∧
     env.names[id]? = some (target.text, Env.noNamespace) ∧
     d = content.map (fun c => normalizeLineEnds c.text) ∧
-    ∀ c, content = some c → g ⟨path, .piContent⟩ = some c.span
+    (∀ c, content = some c → g ⟨path, .piContent⟩ = some c.span) ∧
+    isReservedPiTarget target.text = false
 
 /-! ### The tree -/
 
